@@ -21,6 +21,7 @@ EXPLANATION = (
     "complement relative to all ids, $and intersects and $or unites the operand results."
     " Further: (k) the $near branch is evaluated abstractly for each documented argument shape and the reference / tolerances reaching isclose are compared with the documented ones; (l) the index builders carry nothing from one job's iteration to the next; _hashable_dict hashes its unordered item set (consistent with dict equality), never a text serialisation."
     ' The typed index de-normalises keys in __iter__ as in keys(); the index receives the whole decoded document (no projection chosen by a second parser of the filter); no cache of file content validated by time stamp / size; generator expressions built in loops do not outlive the iteration whose variables they capture.'
+    ' (n) the simple filter syntax does not pair tokens by zip of two strided slices (C06-n).'
 )
 UNDECIDED = "Value semantics of each operator, set-algebra identities over all corpora and the int/float dual lookup are not decided."
 
